@@ -5,7 +5,7 @@ import sys
 import time
 
 from . import core, engine, roles as roles_mod
-from . import search, nfa, da, ser, cli, pure
+from . import search, nfa, da, ser, cli, pure, lazy
 
 TRUSTED = [
     "L1: for a power of two B, x < kB and c < B imply x ^ c < kB; next_power_of_two(n) >= n",
@@ -118,11 +118,20 @@ def run_C07(ctx, R):
     da.rule_dispatch(ctx, R, E.NR, E.BR, rules={"B-MAP"})
     pure.rule_mapper(ctx, R)
     pure.rule_pure_freeze(ctx, R)
+    lazy.rule_safe_inv(ctx, R)
+    lazy.rule_safe_api(ctx, R)
+    lazy.rule_utf8_ctor(ctx, R)
+    lazy.rule_dec(ctx, R)
+    lazy.rule_lazy_adapt(ctx, R)
+    lazy.rule_lazy_ctor(ctx, R, rules={"LAZY-CTOR"})
 
 
 def run_C08(ctx, R):
     E = Env(ctx, R)
     pure.rule_mapper(ctx, R)
+    lazy.rule_dec(ctx, R)
+    lazy.rule_lazy_adapt(ctx, R)
+    search.rule_iter_standard(ctx, R, rules={"LAZY-END", "ITER-LABEL"})
     nfa.rule_num_bytes(ctx, R, E.NR)
     da.rule_dispatch(ctx, R, E.NR, E.BR, rules={"CW-NB"})
     search.rule_iter_leftmost(ctx, R, rules={"SAFE-STR"})
@@ -150,6 +159,9 @@ def run_C11(ctx, R):
 
 def run_C12(ctx, R):
     search.rule_iter_standard(ctx, R, rules={"LAZY-PULL", "LAZY-END", "LAZY-NOBUF", "ITER-EXHAUST", "ITER-LABEL"})
+    lazy.rule_lazy_ctor(ctx, R)
+    lazy.rule_lazy_adapt(ctx, R)
+    lazy.rule_dec(ctx, R)
 
 
 def run_C13(ctx, R):
